@@ -131,6 +131,37 @@ def simKU (C : Crypto) (m : Sim) (side : String) (req : Bool) : Sim × String :=
     let r := sendKeyUpdate C m.sv req
     ({ m with sv := r.2, cl := Sim.deliver m.cl r.1 }, s!"ks/ok/{lensStr r.1}")
 
+/-- `VerifWriteRawRecord` (harness hook): one record of the given type and payload under the current
+write keys; `bytesSent` grows, `packetsSent` does not; then `k` key changes (`VerifRekeyOut`). -/
+def rawWrite (C : Crypto) (c : Conn) (typ : Nat) (payload : Bytes) (k : Nat) : List Bytes × Conn :=
+  let e := encrypt C c.p.s c.out typ payload
+  let out := (List.range k).foldl (fun h _ => rekey C h) e.2
+  ([e.1], { c with out := out, bytesSent := c.bytesSent + e.1.length })
+
+def ticketMsg : Bytes := [4, 0, 0, 18, 0, 0, 0, 0, 0, 0, 0, 0, 1, 0, 0, 4, 1, 2, 3, 4, 0, 0]
+
+/-- payload and number of KeyUpdates of a coalesced-message code (decimal digits 1, 2, 3). -/
+def coalesced (n : Nat) : Bytes × Nat :=
+  (toString n).toList.foldl (fun (acc : Bytes × Nat) ch =>
+    if ch = '1' then (acc.1 ++ keyUpdateMsg false, acc.2 + 1)
+    else if ch = '2' then (acc.1 ++ keyUpdateMsg true, acc.2 + 1)
+    else if ch = '3' then (acc.1 ++ ticketMsg, acc.2)
+    else acc) ([], 0)
+
+def simRaw (C : Crypto) (m : Sim) (kind side : String) (n : Nat) : Sim × String :=
+  let pend := if side = "c" then m.sentC - m.rcvdS else m.sentS - m.rcvdC
+  if pend > maxPending - 4000 then (m, "x") else
+  let (typ, payload, k) :=
+    if kind = "z" then (tApp, ([] : Bytes), 0)
+    else if kind = "a" then (tAlert, [1, 90], 0)
+    else let cp := coalesced n; (tHs, cp.1, cp.2)
+  if side = "c" then
+    let r := rawWrite C m.cl typ payload k
+    ({ m with cl := r.2, sv := Sim.deliver m.sv r.1 }, s!"{kind}c/ok/{lensStr r.1}")
+  else
+    let r := rawWrite C m.sv typ payload k
+    ({ m with sv := r.2, cl := Sim.deliver m.cl r.1 }, s!"{kind}s/ok/{lensStr r.1}")
+
 def simOp (C : Crypto) (m : Sim) (op : String) : Option (Sim × String) :=
   match op.splitOn ":" with
   | [hd, n] =>
@@ -141,6 +172,9 @@ def simOp (C : Crypto) (m : Sim) (op : String) : Option (Sim × String) :=
       if hd.startsWith "w" then some (simWrite C m side n)
       else if hd.startsWith "r" then some (simRead C m side n)
       else if hd.startsWith "k" then some (simKU C m side (n = 1))
+      else if hd.startsWith "z" then some (simRaw C m "z" side n)
+      else if hd.startsWith "a" then some (simRaw C m "a" side n)
+      else if hd.startsWith "m" then some (simRaw C m "m" side n)
       else none
   | _ => none
 
@@ -162,8 +196,8 @@ def drainSide (C : Crypto) (side : String) : Nat → Sim → List String → Sim
       drainSide C side f m' (t :: acc)
 
 def simDrain (C : Crypto) (m : Sim) : Sim × List String :=
-  let (m1, a1) := drainSide C "c" 64 m []
-  let (m2, a2) := drainSide C "s" 64 m1 a1
+  let (m1, a1) := drainSide C "c" 1000 m []
+  let (m2, a2) := drainSide C "s" 1000 m1 a1
   let step := fun (st : Sim × List String) (w : String) =>
     let (ma, ta) := simWrite C st.1 w 1
     let (mb, tb) := simRead C ma (if w = "c" then "s" else "c") 1
@@ -197,7 +231,7 @@ def schedMonitor (vers : Nat) (toks : List String) (o : KV) : Option String :=
     | ["x"] => false
     | [hd, _, eq, e, _] => hd.startsWith "r" ∧ (eq ≠ "1" ∨ e ≠ "ok")
     | [hd, _, e, _] => hd.startsWith "w" ∧ e ≠ "ok"
-    | [hd, e, _] => hd.startsWith "k" ∧ e ≠ "ok"
+    | [_, e, _] => e ≠ "ok"
     | _ => true
   match bad with
   | some t => some s!"stream-integrity:{t}"
@@ -235,7 +269,10 @@ def sched (c : Case) : Verdict :=
     let ops := listOf (c.input.getD "ops" "-")
     let hasKU := ops.any (·.startsWith "k")
     let run := longestKURun ops
-    let tag := st.tag ++ (if run > maxUselessRecords then ",kurun" else if hasKU then ",ku" else "")
+    let nIgn := (ops.filter fun o => o.startsWith "z" ∨ o.startsWith "a").length
+    let hasCoal := ops.any (·.startsWith "m")
+    let tag := st.tag ++ (if nIgn > maxUselessRecords then ",ignorable" else if hasCoal then ",coalesced"
+      else if run > maxUselessRecords then ",kurun" else if hasKU then ",ku" else "")
     match schedMonitor st.s.vers (implRes ++ implDrain) o with
     | some cl => .propFail tag cl
     | none =>
